@@ -14,6 +14,9 @@ mod c02;
 mod c11;
 mod c12;
 mod c13;
+mod c09;
+mod c10;
+mod c14;
 mod enc;
 mod out;
 mod redisx;
@@ -80,6 +83,9 @@ fn main() {
         "C11" => c11::run(&a),
         "C12" => c12::run(&a),
         "C13" => c13::run(&a),
+        "C09" => c09::run(&a),
+        "C10" => c10::run(&a),
+        "C14" => c14::run(&a),
         _ => {
             eprintln!("no harness for {}", prop);
             std::process::exit(2);
